@@ -6,7 +6,7 @@
    location, so the partition does not depend on that order; the model uses the order of
    first appearance. Not modelled: group Similarity, ids, final ordering of groups. *)
 From Coq Require Import NArith ZArith QArith List Bool.
-From PV Require Import Gen.CloneConst Clone.GroupSpec Clone.GroupCommon.
+From PV Require Import Gen.GroupConst Clone.GroupSpec Clone.GroupCommon.
 Import ListNotations.
 
 (* average similarity of cand to the other members (lines 209-217) *)
